@@ -36,6 +36,7 @@ def gcpl_cases(E, ctx):
 
     def ens(r):
         rt = as_int_term(r)
+        E.ghost.setdefault("gcpl", []).append((ta, tb, rt))
         return [("range", mk_bool(z3.And(rt >= 0, rt <= mn))),
                 ("common", mk_bool(z3.Extract(ta, 0, rt) == z3.Extract(tb, 0, rt))),
                 ("maximal", mk_bool(z3.Implies(rt < mn, ta[rt] != tb[rt])))]
